@@ -89,4 +89,6 @@ TraceAccepted ==
   ELSE /\ PrintT(<<"TRACE_REJECTED_AT_LINE", d + 1, "OF", Len(TraceLog)>>)
        /\ PrintT(<<"OFFENDING", TraceLog[d + 1]>>)
        /\ FALSE
+\* every step of the real pool, projected on (alive, submitted, ran), is a step of PoolAbs (a Reset line starts a new execution)
+TraceRefines == [][TraceLog[l].e = "Reset" \/ Abs!Next]_<<S.alive, G.sub, G.ran>>
 ==========================================================================
